@@ -1,5 +1,6 @@
 import CuriesVerif.Lemmas.Refine
 import CuriesVerif.Model.Loaders
+import CuriesVerif.Lemmas.MapM
 
 /-!
 # C04 — strict construction enforces one owner per CURIE prefix and per URI prefix
@@ -196,26 +197,6 @@ theorem C04_loader_prefix_map (pm : List (Str × Str)) (d : Str) :
   unfold Loaders.prefixMapRecords at hr
   obtain ⟨kv, _, rfl⟩ := List.mem_map.mp hr
   simp [RecOK]
-
-theorem mapM_ok_mem {α β ε : Type} (f : α → Except ε β) (l : List α) (out : List β)
-    (h : l.mapM f = .ok out) : ∀ b ∈ out, ∃ a ∈ l, f a = .ok b := by
-  induction l generalizing out with
-  | nil => simp [List.mapM_nil, pure, Except.pure] at h; subst h; simp
-  | cons a as ih =>
-    rw [List.mapM_cons] at h
-    cases hv : f a with
-    | error e => simp [hv, bind, Except.bind] at h
-    | ok b' =>
-      cases hm : as.mapM f with
-      | error e => simp [hv, hm, bind, Except.bind] at h
-      | ok bs =>
-        simp [hv, hm, bind, Except.bind, pure, Except.pure] at h
-        subst h
-        intro b hb
-        rcases List.mem_cons.mp hb with rfl | hb
-        · exact ⟨a, by simp, hv⟩
-        · obtain ⟨a', ha', hf⟩ := ih bs hm b hb
-          exact ⟨a', by simp [ha'], hf⟩
 
 theorem C04_loader_priority (data : List (Str × List Str)) (recs : List Record) (d : Str)
     (h : Loaders.priorityRecords data = .ok recs) :
